@@ -39,7 +39,7 @@ class VCase:
     """one configuration of one op"""
 
     def __init__(self, name, key, leaves, build, scalars=(), eps="symbolic", max_paths=3000, pre=None,
-                 functions=(), check_frame=True, timeout_ms=10000, expect="vjp", note=""):
+                 functions=(), check_frame=True, timeout_ms=10000, expect="vjp", note="", instrument=None):
         self.name = name                # obligation prefix, e.g. functional.add
         self.key = dict(key)            # configuration (known findings are matched on it)
         self.leaves = list(leaves)
@@ -53,6 +53,7 @@ class VCase:
         self.timeout_ms = timeout_ms
         self.expect = expect
         self.note = note
+        self.instrument = instrument    # instrument(root, T) -> finalize() -> [(fact name, bool)]   (ghost state, e.g. invocation counters)
 
     def describe(self):
         return {"case": self.name, **{k: core_json(v) for k, v in self.key.items()},
@@ -229,11 +230,15 @@ def _symbolic_paths(case, eps_mode):
                 r.exc = e
                 r.phase = "forward"
                 return r
+            if not out.requires_grad:
+                r.status = "untracked-root"
+                return r
             r.out = np.array(out.data, dtype=object) if not isinstance(out.data, np.ndarray) else out.data
             garr = symarr("g", r.out.shape)
             gsnap = garr.copy()
             gT = Tensor(garr)
             r.g = gsnap
+            fin = case.instrument(out, T) if case.instrument is not None else None
             try:
                 out.backward(gT)
             except PathBudgetExceeded:
@@ -258,6 +263,8 @@ def _symbolic_paths(case, eps_mode):
             for l in case.leaves:
                 if not l.requires_grad:
                     fr.append(("no-grad-for-non-requiring[%s]" % l.name, T[l.name]._grad is None))
+            if fin is not None:
+                fr.extend(fin())
             r.frames = fr
             return r
 
@@ -325,6 +332,10 @@ def _run_mode(case, seed, eps_mode, want_post, probe=False):
         e = results[0][0].exc
         out["notes"].append("forward rejected: %s: %s" % (type(e).__name__, str(e)[:200]))
         return out
+    if statuses == {"untracked-root"}:
+        out["status"] = "untracked"
+        out["notes"].append("result does not require grad (nothing to differentiate)")
+        return out
     if "forward-raised" in statuses:
         # accepted on some paths only: value-dependent rejection is a checker-visible anomaly
         e = [r for r, _ in results if r.status == "forward-raised"][0].exc
@@ -357,7 +368,7 @@ def _run_mode(case, seed, eps_mode, want_post, probe=False):
                     bump("syntactic")
                 else:
                     out["failures"].append({"obligation": case.name + ".frame." + fname, "what":
-                                            "%s was modified by forward/backward" % fname,
+                                            "frame/ghost fact '%s' does not hold after forward+backward" % fname,
                                             "replay": {"path": pi}, "reproduced": True, "frame": True})
         if not want_post:
             continue
@@ -368,7 +379,10 @@ def _run_mode(case, seed, eps_mode, want_post, probe=False):
             gimpl = r.grads[l.name]
             oname = "%s.backward.post[%s]" % (case.name, l.name)
             out["obligations"] += 1
-            if gimpl is None or tuple(np.shape(gimpl)) != l.shape:
+            if gimpl is None:
+                # an operand the root does not depend on gets no buffer: equivalent to an all-zero gradient
+                gimpl = np.zeros(l.shape, dtype=object)
+            if tuple(np.shape(gimpl)) != l.shape:
                 rep = _replay_numeric(case, sess, pc, None, rng, out_shape, l, None)
                 out["failures"].append({"obligation": "%s.backward.shape[%s]" % (case.name, l.name), "what":
                                         "gradient has shape %s, operand has shape %s" % (None if gimpl is None else np.shape(gimpl), l.shape),
